@@ -14,13 +14,13 @@ package main
 //      a prefix stops inside a form (such a prefix must never read as ok).
 
 import (
+	"encoding/json"
 	"fmt"
 	"os"
 	"path/filepath"
 	"strconv"
 	"strings"
 	"sync/atomic"
-	"time"
 	"unicode/utf8"
 
 	"verif/harness/lib"
@@ -52,6 +52,7 @@ type c02Fail struct {
 	sweep               bool
 	prefixLen           int    // (d): the prefix length, else -1
 	ops                 string // (e): the operations of a stream history
+	stream              string // (f): the kind of stream
 }
 
 type c02Runner struct {
@@ -62,6 +63,9 @@ type c02Runner struct {
 	// listed constructs the composite generators avoid
 	byteOffsetListed, startSkipListed        bool
 	streamReads, prefixReads, nontrivialCuts int
+	// (f)
+	eofValueListed bool
+	lispCalls      int
 }
 
 func (r *c02Runner) fail(f c02Fail) {
@@ -147,14 +151,14 @@ func runC02(c *lib.Ctx) {
 		return
 	}
 	r := &c02Runner{c: c, perStem: map[string]int{}}
-	// watchdog: a reader that no longer terminates must not hang the check (machinery error, exit 2)
+	// watchdog: a reader that no longer terminates must not hang the check. It is load independent (CPU
+	// time inside one call, confirmed by re-running the case alone) and ends the run with a VIOLATION
+	// (aspect=hang) and a replay, see c02alone.go.
 	r.current.Store("start")
-	go func() {
-		limit := time.Duration(c.Scale(8, 40)) * time.Minute
-		time.Sleep(limit)
-		fmt.Fprintf(os.Stderr, "C02 harness: no result after %v; last case: %v\n", limit, r.current.Load())
-		os.Exit(2)
-	}()
+	if p := os.Getenv(c02AloneEnv); p != "" {
+		c02AloneWorker(c, p)
+	}
+	c02Watchdog(c, func(j *c02Job, detail string) { r.reportHang(j, detail) })
 	// warm the reader's lazily initialised constructors (quote, function, backquote, comma, comma-at)
 	_ = c02Run(c02EReadString, []byte("'a #'b `(c ,d ,@e)"), c02Plan{}, c02MakeCfg(10, "double-float"))
 
@@ -212,6 +216,7 @@ func runC02(c *lib.Ctx) {
 	}
 
 	// --- model requests: whole text, one form, prefixes
+	c02Leave()
 	var reqs []string
 	type slot struct {
 		cs   *c02Case
@@ -232,6 +237,7 @@ func runC02(c *lib.Ctx) {
 		}
 	}
 	reqs = append(reqs, "read tablesok")
+	c02Leave()
 	replies := c.Model(reqs)
 	if replies[len(replies)-1] != "ok t" {
 		// the model no longer covers the tables: every comparison with the model below is still made
@@ -274,7 +280,17 @@ func runC02(c *lib.Ctx) {
 	}
 
 	// --- (e) histories mixing cl:read with character level operations on one stream
+	c02Leave()
 	c02Histories(c, r, cases[nSweep:])
+
+	// --- (f) the secondary entry points, called through Lisp: read-each, read-push, read in a loop, load
+	c02Leave()
+	cpu0 := c02CPUSeconds()
+	c02LispFamily(c, r, cases[:nSweep], cases[nSweep:])
+	c02Leave()
+	// informational only (CPU seconds of this process; no verdict depends on a time)
+	c.Ev.Coverage["cpu_s_lisp_family"] = int(c02CPUSeconds() - cpu0 + 0.5)
+	c.Ev.Coverage["cpu_s_all_families"] = int(c02CPUSeconds() + 0.5)
 
 	// --- signatures need the lexer mode at the cut: ask the model
 	var modeReqs []string
@@ -296,8 +312,17 @@ func runC02(c *lib.Ctx) {
 			"observed": f.observed, "expected": f.expected, "expected_from": f.from,
 			"relies_on": []string{"SlipVerif.Theorems.C02.blocks_refine_bytes", "SlipVerif.Theorems.C02.chunk_invariance_spec"},
 		}
+		if f.stream != "" {
+			rep["input"].(map[string]any)["stream_kind"] = f.stream
+		}
 		c.Report(sig, f.sweep, rep)
 	}
+	r.finishCoverage(len(cases), nSweep)
+}
+
+// finishCoverage fills the coverage entries every run must have.
+func (r *c02Runner) finishCoverage(nCases, nSweep int) {
+	c := r.c
 	sigs := []string{}
 	for _, v := range c.Violations {
 		sigs = append(sigs, v.Signature)
@@ -308,15 +333,55 @@ func runC02(c *lib.Ctx) {
 		total += n
 	}
 	c.Ev.Coverage["disagreements_checked"] = total
-	c.Ev.Coverage["traces_validated_against_impl"] = len(cases) + r.prefixReads
-	c.Ev.Coverage["texts"] = len(cases)
+	c.Ev.Coverage["traces_validated_against_impl"] = nCases + r.prefixReads
+	c.Ev.Coverage["texts"] = nCases
 	c.Ev.Coverage["sweep_texts"] = nSweep
-	c.Ev.Coverage["random_texts"] = len(cases) - nSweep
+	c.Ev.Coverage["random_texts"] = nCases - nSweep
 	c.Ev.Coverage["stream_reads"] = r.streamReads
 	c.Ev.Coverage["prefix_reads"] = r.prefixReads
 	c.Ev.Coverage["plans_with_cut_inside_a_token"] = r.nontrivialCuts
-	c.Ev.Coverage["entry_points"] = []string{c02EReadString, c02ERead, c02EReadOne, c02EStream, c02EStreamOne, c02EStreamPush, c02EStreamEach, c02EClReadSeek, c02EClRead, c02EReadFromStr, c02EFormByForm, c02ERfsFormByForm}
+	c.Ev.Coverage["entry_points"] = append([]string{c02EReadString, c02ERead, c02EReadOne, c02EStream, c02EStreamOne, c02EStreamPush, c02EStreamEach, c02EClReadSeek, c02EClRead, c02EReadFromStr, c02EFormByForm, c02ERfsFormByForm}, c02LispEntries...)
 	c.Ev.Coverage["rule"] = "case = (text, configuration[, cut plan | prefix length]); non-trivial = the text has >= 2 tokens and, for cut cases, a cut falls strictly inside a token/string/escape/dispatch/comment; distinct by (configuration, text, cuts, eof variant)"
+}
+
+// reportHang: the watchdog found a call into the reader that does not return, and a worker process
+// that ran the same case alone did not finish either. Report it and end the run (the goroutine
+// that made the call is still inside it).
+func (r *c02Runner) reportHang(j *c02Job, detail string) {
+	c := r.c
+	entry := j.Entry
+	switch j.Kind {
+	case "hist":
+		entry = "history(" + j.StreamKind + ")"
+	case "lisp":
+		entry = j.Entry + "(" + j.StreamKind + ")"
+	case "fbf":
+		entry = c02EFormByForm
+	case "rfsfbf":
+		entry = c02ERfsFormByForm
+	case "rfsat":
+		entry = "read-from-string(:start)"
+	}
+	cell := "random"
+	if p := c02CurCell.Load(); p != nil {
+		cell = *p
+	}
+	at := len(j.bytes())
+	if len(j.Plan.Cuts) > 0 && j.Plan.Cuts[0] < at {
+		at = j.Plan.Cuts[0]
+	}
+	mode := strings.TrimPrefix(c.Model([]string{c02Req("mode", j.cfg(), j.bytes()[:at])})[0], "ok ")
+	sig := fmt.Sprintf("entry=%s cell=%s mode=%s aspect=hang", entry, cell, mode)
+	c.Report(sig, false, map[string]any{
+		"entry": entry, "job": j,
+		"input": map[string]any{"text": string(j.bytes()), "text_hex": c02Hex(j.bytes()), "cuts": j.Plan.Cuts, "eof_with_last": j.Plan.EofWith, "zero_reads": j.Plan.Zero,
+			"read_base": j.Base, "float_format": j.Sym, "ops": j.Ops, "stream_kind": j.StreamKind},
+		"observed": "the call does not return; re-run alone in a worker process: " + detail, "expected": "the reader terminates on every text",
+		"expected_from": "model (total functions)",
+	})
+	c.Ev.Coverage["run_ended_by_hang"] = sig
+	r.finishCoverage(0, 0)
+	os.Exit(c.Finish())
 }
 
 // checkCase runs every comparison for one (text, configuration). plans == nil: the standard cut
@@ -327,6 +392,7 @@ func (r *c02Runner) checkCase(cs *c02Case, plans []c02Plan, prefixModel []c02Out
 	text := t.Text
 	cell := t.Name
 	r.current.Store(fmt.Sprintf("%s %q %s", cell, text, cs.Cfg))
+	c02CurCell.Store(&cell)
 	c.Ev.Hist("text_len", c02Bucket(len(text)))
 	for _, k := range t.Kinds {
 		c.Ev.Hist("token_kind", k)
@@ -575,6 +641,7 @@ func c02RfsStartSweep(c *lib.Ctx, r *c02Runner) {
 			reqs = append(reqs, c02Req("one", cfg, []byte(t.text[n:])))
 		}
 	}
+	c02Leave()
 	replies := c.Model(reqs)
 	for i, x := range qs {
 		want := c02Expected(replies[i])
@@ -699,12 +766,29 @@ func c02Replay(c *lib.Ctx) {
 				want.Objs[k] = "failed"
 			}
 		}
-		got := c02RunHistTimed(kind, text, ops, plan, cfg, c.OutDir)
+		got := c02RunHistTimed(c, kind, text, ops, plan, cfg, c.OutDir)
 		fmt.Printf("  history ops         : %s on %s\n", ops, kind)
 		if !c02SameObjs(got, want.Objs) {
 			r.fail(c02Fail{entry: entry, cell: cell, aspect: aspect, text: text, cfg: cfg, plan: plan, cutAt: -1,
 				observed: "ops " + ops + " → " + strings.Join(got, " "), expected: strings.Join(want.Objs, " "), from: "model:read.hist", prefixLen: -1, ops: ops})
 		}
+	case aspect == "hang":
+		// a call that did not return: re-run it the way it was confirmed, alone in a worker process
+		var job c02Job
+		if b, err := json.Marshal(rec["job"]); err != nil || json.Unmarshal(b, &job) != nil || job.Kind == "" {
+			fmt.Println("replay file has no job")
+			os.Exit(2)
+		}
+		res, verdict, detail := c02RunAlone(c, &job)
+		if verdict != "done" {
+			r.fail(c02Fail{entry: entry, cell: cell, aspect: aspect, text: text, cfg: cfg, plan: plan, cutAt: -1,
+				observed: "re-run alone in a worker process: " + verdict + ": " + detail, expected: "the reader terminates on every text", from: "model (total functions)", prefixLen: -1})
+		} else {
+			fmt.Printf("  re-run alone        : terminates: %v %v\n", res.Out, res.Trace)
+		}
+	case strings.HasPrefix(entry, "lisp:"):
+		kind, _ := in["stream_kind"].(string)
+		c02LispReplay(c, r, entry, cell, text, plan, cfg, all, kind)
 	case strings.HasPrefix(entry, "read-from-string(:start)"):
 		c02RfsStartSweep(c, r)
 	case entry == "ReadString(prefix)":
